@@ -9,7 +9,7 @@ def diagram(rng, n, kind=None, scale=1.0, allow_diag=True):
     if n == 0:
         return np.zeros((0, 2))
     if kind is None:
-        kind = rng.choice(["grid", "grid", "float", "diagheavy", "equal", "neartie", "cluster", "dyadic", "h0", "decimal"])
+        kind = rng.choice(["grid", "grid", "float", "diagheavy", "equal", "neartie", "cluster", "dyadic", "h0", "decimal", "negint"])
     if kind == "grid":
         g = int(rng.integers(2, 7))
         b = rng.integers(0, g, size=n).astype(float)
@@ -37,6 +37,14 @@ def diagram(rng, n, kind=None, scale=1.0, allow_diag=True):
                 b[i] = np.nextafter(b[i], np.inf if ulps[i, 0] > 0 else -np.inf)
             for _ in range(abs(int(ulps[i, 1]))):
                 d[i] = np.nextafter(d[i], np.inf if ulps[i, 1] > 0 else -np.inf)
+    elif kind == "negint":
+        # a negated integer filtration (superlevel sets of an 8-bit image): values in [-255, 0], deaths often exactly -1 or 0 -
+        # the values that file formats and other tools use as markers for "never dies"
+        b = -rng.integers(2, 256, n).astype(float)
+        d = np.minimum(b + rng.integers(0 if allow_diag else 1, 256, n), 0.0)
+        d = np.where(rng.random(n) < 0.3, -1.0, d)
+        d = np.where(rng.random(n) < 0.1, 0.0, d)
+        d = np.maximum(d, b + (0 if allow_diag else 1))
     elif kind == "decimal":
         # filtration values from a threshold sweep in steps of 0.1 / 0.05 / 0.01: not representable in binary, so differences and
         # half-sums taken along different routes differ by an ulp
@@ -117,8 +125,10 @@ def specialize(rng, dgm, scale=1.0):
     if n == 0:
         return D
     for _ in range(int(rng.integers(1, 4))):
-        i = int(rng.integers(0, n)); what = int(rng.integers(0, 8))
-        if what == 0:
+        i = int(rng.integers(0, n)); what = int(rng.integers(0, 9))
+        if what == 8:
+            D[i] = [-float(rng.integers(2, 9)) * scale, -1.0 * (scale if rng.random() < 0.5 else 1.0)]     # death exactly -1 (a common "essential" marker)
+        elif what == 0:
             D[i, 0] = 0.0
         elif what == 1:
             D[i, 0] = -0.0
